@@ -311,6 +311,13 @@ func recoverImageCont(s *Snap, cfg Cfg, keys []string, res *TaskResult, cont fun
 	}
 	d := w.DumpDB()
 	r := recovery{Dump: d}
+	if secondDeath && d.Err == "" {
+		if detail := secondUncleanShutdown(s, cfg, keys, res); detail != "" {
+			r.Second = detail
+			w.Close()
+			return r
+		}
+	}
 	if err := w.Close(); err != nil {
 		r.Second = "Close after recovery: " + panicDetail(err)
 		return r
@@ -334,6 +341,75 @@ func recoverImageCont(s *Snap, cfg Cfg, keys []string, res *TaskResult, cont fun
 		w.Close()
 	}
 	return r
+}
+
+// secondDeath: after the recovering Open of an image, acknowledge a few short writes and let the process die
+// AGAIN (no Close): what the first recovery left behind the new logical end of a file (the remains of a torn record
+// it dropped) must not disturb the recovery after the second death.
+var secondDeath bool
+
+func secondUncleanShutdown(s *Snap, cfg Cfg, keys []string, res *TaskResult) string {
+	imgSeq++
+	root := filepath.Join(scratchRoot(), fmt.Sprintf("img%d", imgSeq))
+	defer os.RemoveAll(root)
+	if err := s.materialize(root); err != nil {
+		return ""
+	}
+	w := &World{Cfg: cfg, Root: root, Dir: filepath.Join(root, "db"), Model: map[string]string{}, Keys: keys, Cnt: map[string]int64{}, Hist: map[string]map[string]bool{}}
+	res.Evals++
+	if err := w.Open(); err != nil {
+		return "" // the caller's own first Open reports this
+	}
+	d := w.DumpDB()
+	if d.Err != "" {
+		w.Close()
+		return ""
+	}
+	w.Model = copyModel(d.KV)
+	w.Step = 60
+	type img struct {
+		snap  *Snap
+		model map[string]string
+		after string
+	}
+	var imgs []img
+	for _, op := range []Op{{K: "put", Key: "a", VC: "S"}, {K: "del", Key: "b"}} {
+		ar := w.Apply(op)
+		if ar.Clause != "" || ar.Err != nil || w.Dead || w.DB == nil {
+			break // what the recovered database does with further operations is the continuation's oracle
+		}
+		imgs = append(imgs, img{takeSnap(root), copyModel(w.Model), op.String()})
+	}
+	if w.DB != nil && !w.Dead {
+		w.Close()
+	}
+	for _, im := range imgs {
+		imgSeq++
+		root2 := filepath.Join(scratchRoot(), fmt.Sprintf("img%d", imgSeq))
+		if err := im.snap.materialize(root2); err != nil {
+			os.RemoveAll(root2)
+			return ""
+		}
+		w2 := &World{Cfg: cfg, Root: root2, Dir: filepath.Join(root2, "db"), Model: map[string]string{}, Keys: keys, Cnt: map[string]int64{}, Hist: map[string]map[string]bool{}}
+		res.Evals++
+		res.count("second_death_images", 1)
+		err := w2.Open()
+		detail := ""
+		if err != nil {
+			detail = fmt.Sprintf("second unclean shutdown (process death after the recovered database acknowledged %s): Open failed: %s: %s\nimage: %s", im.after, errClass(err), truncate(panicDetail(err), 300), im.snap.listing())
+		} else {
+			d2 := w2.DumpDB()
+			if d2.Err != "" || !sameMap(d2.KV, im.model) || d2.KeyNum != len(im.model) {
+				detail = fmt.Sprintf("second unclean shutdown (process death after the recovered database acknowledged %s): recovered %s, acknowledged %s", im.after, d2, modelString(im.model))
+			}
+			w2.Close()
+		}
+		os.RemoveAll(root2)
+		if detail != "" {
+			return detail
+		}
+	}
+	return ""
 }
 
 // continueAfterRecovery applies crashContinuation to w (whose mapping is base) with the reference-map oracle.
